@@ -1059,6 +1059,13 @@ func reasmFamily(ctx *Ctx) error {
 		}
 	}
 
+	if ctx.Prop != "C19" {
+		for _, c := range reasmLargeCases() {
+			res.Hist("large")
+			report(runReasmCase(ctx, m, c, idx), c)
+			idx++
+		}
+	}
 	if ctx.Prop == "C01" {
 		for _, c := range reentrantBatchCases() {
 			res.Hist("re-entrant batch")
